@@ -32,6 +32,7 @@ type Gen struct {
 	KeyOf   func(tab *TableSpec, path string) int // index of the table entry to use; -1: nil body
 	NilBody bool
 	pfx     string
+	PLen    int // >=0: prefixed text has exactly this many (symbolic) bytes
 }
 
 func (g *Gen) e() *Engine { return g.w.e }
@@ -120,7 +121,15 @@ func (g *Gen) Object(s *State, mod, tn, path string) *SVal {
 		case "fixstr":
 			ov.F[i] = g.fixText(s, nm, f)
 		case "pstr":
-			ov.F[i] = g.symText(s, nm, g.P)
+			if g.PLen >= 0 {
+				vec := make([]*Term, g.PLen)
+				for j := range vec {
+					vec[j] = e.freshVar(nm+"_b", 8)
+				}
+				ov.F[i] = &SVal{K: 's', S: VecBytes(vec), SMax: g.PLen}
+			} else {
+				ov.F[i] = g.symText(s, nm, g.P)
+			}
 		case "list_basic", "list_fixstr", "list_pstr", "list_obj":
 			n := 0
 			if g.ListLen != nil {
